@@ -86,6 +86,8 @@ def run(tier, seed, replay=None):
             return "ref" + l
         if l == "table":
             return "reftable"
+        if l.startswith("het ") or l.startswith("oaat "):
+            return "ref" + l
         if (l.startswith("encw ") or l.startswith("decw ")) and int(l.split()[1], 16) != 0:
             return "ref" + l
         return None
